@@ -419,7 +419,7 @@ def run(ctx):
 
     # ---- worst-case size + ICC of lossless transforms: NOREALLOC into exactly tj3TransformBufSize() bytes over
     #      {source ICC} x {instance ICC} x TJPARAM_SAVEMARKERS x TJXOPT_COPYNONE x {tj3GetICCProfile before}
-    xl = []
+    xl = [l for l in corpus if l.startswith("xicc ")]
     for src in (0, 3000):
         for inst in (0, 100, 3000, 70000):
             for save in range(5):
